@@ -55,10 +55,20 @@ def foreign_unit_simulates(tree) -> int:
     return w(tree["body"])
 
 
+# Long-gap share: the update queue is filled by every tick (Clock, Run Time, Process Time, Block Time, Scope Time ... about
+# 5 entries per running tick) and only drained by a report, so what a report has to carry after hundreds of ticks without
+# any collection (connection being re-established, engine running before a runner collects) is a case of its own: a tag
+# that changed once at the beginning of such a gap has its only queue entry far behind thousands of newer ones.
+LONG_GAPS = [220, 260, 320, 400, 520, 650]
+
+
 @st.composite
 def cases(draw, cfg: G.GenCfg, gaps, incs, phases=(8, 30), snapshot_every: int = 12, traj_changes: int = 8,
-          user_every: int = 12):
-    """gaps / incs: lists to sample the number of ticks of a phase / the tick increments from"""
+          user_every: int = 12, long_gap_every: int = 0):
+    """gaps / incs: lists to sample the number of ticks of a phase / the tick increments from.
+    long_gap_every > 0: 1 case in long_gap_every gets one phase of LONG_GAPS ticks (0.1 s each) among its first four
+    phases - while the method is still executing, so Mark / Block / outputs / System State change for the last time in
+    the early part of the gap - with an incremental report before and after it."""
     tree = draw(G.program(cfg))
     _own_units(draw, tree["body"])
     ph = []
@@ -70,6 +80,16 @@ def cases(draw, cfg: G.GenCfg, gaps, incs, phases=(8, 30), snapshot_every: int =
         rep = "snapshot" if draw(st.integers(0, snapshot_every - 1)) == 0 else "report"
         ph.append({"user": user, "ticks": ticks, "rep": rep})
         n_ticks += n
+    if long_gap_every > 0 and draw(st.integers(0, long_gap_every - 1)) == 0:
+        pos = draw(st.integers(0, min(3, len(ph) - 1)))
+        n = draw(st.sampled_from(LONG_GAPS))
+        n_ticks += n - len(ph[pos]["ticks"])
+        ph[pos]["ticks"] = [0.1] * n
+        ph[pos]["rep"] = "report"
+        if pos > 0:
+            ph[pos - 1]["rep"] = "report"
+        if pos + 1 < len(ph):
+            ph[pos + 1]["rep"] = "report"
     traj = draw(G.trajectory(n_ticks, tags=TRAJ_TAGS, max_changes=traj_changes))
     return {"tree": tree, "traj": traj, "phases": ph}
 
